@@ -96,11 +96,13 @@ type Exec struct {
 	sol *Solver
 	alt *Solver // fallback solver for unknowns (may be nil)
 
-	pc     []*Term
-	pcSet  map[*Term]bool
-	prefix []Dec
-	decs   []Dec
-	alts   [][]Dec
+	pc       []*Term
+	pcSet    map[*Term]bool
+	subst    map[*Term]*Term
+	normMemo map[*Term]*Term
+	prefix   []Dec
+	decs     []Dec
+	alts     [][]Dec
 
 	model   Model
 	modelOK bool
@@ -167,9 +169,65 @@ func (e *Exec) addPC(t *Term) {
 	e.pcSet[t] = true
 	e.pc = append(e.pc, t)
 	e.sol.Assert(e.ctx, t)
+	e.noteEquality(t)
 	if e.modelOK {
 		if v, ok := Eval(t, e.model); !ok || v == 0 {
 			e.modelOK = false
+		}
+	}
+}
+
+// norm rewrites t using the equalities (term = constant) that the path
+// condition has established, so that e.g. an offset computed from a metadata
+// byte becomes concrete once a switch has pinned that byte.
+func (e *Exec) norm(t *Term) *Term {
+	if len(e.subst) == 0 || t.IsConst() {
+		return t
+	}
+	if r, ok := e.normMemo[t]; ok {
+		return r
+	}
+	r := e.normRec(t)
+	e.normMemo[t] = r
+	return r
+}
+
+func (e *Exec) normRec(t *Term) *Term {
+	if r, ok := e.subst[t]; ok {
+		return r
+	}
+	if len(t.a) == 0 {
+		return t
+	}
+	if r, ok := e.normMemo[t]; ok {
+		return r
+	}
+	changed := false
+	args := make([]*Term, len(t.a))
+	for i, a := range t.a {
+		args[i] = e.normRec(a)
+		if args[i] != a {
+			changed = true
+		}
+	}
+	r := t
+	if changed {
+		r = e.ctx.rebuild(t, args)
+	}
+	e.normMemo[t] = r
+	return r
+}
+
+func (e *Exec) noteEquality(t *Term) {
+	// t is a fact on this path
+	if t.op == OEq && t.a[0].w > 0 {
+		x, y := t.a[0], t.a[1]
+		if y.IsConst() && !x.IsConst() {
+			e.subst[x] = y
+			e.normMemo = map[*Term]*Term{}
+		} else if x.IsConst() && !y.IsConst() {
+			e.subst[y] = x
+			e.normMemo = map[*Term]*Term{}
 		}
 	}
 }
@@ -214,6 +272,7 @@ func (e *Exec) Branch(c *Term) bool {
 	if c.w != 0 {
 		panic("Branch on non-bool")
 	}
+	c = e.norm(c)
 	if c.IsConst() {
 		return c.c != 0
 	}
@@ -357,6 +416,7 @@ func (e *Exec) getModel() Model {
 
 // ConcInt forces a term to a concrete value by enumeration (forking).
 func (e *Exec) ConcInt(t *Term) int64 {
+	t = e.norm(t)
 	for {
 		if t.IsConst() {
 			return sext64(t.c, t.w)
@@ -403,6 +463,7 @@ func (e *Exec) ConcInt(t *Term) int64 {
 
 // Assume restricts the path.
 func (e *Exec) Assume(c *Term) {
+	c = e.norm(c)
 	if c.IsConst() {
 		if c.c == 0 {
 			panic(abortf("infeasible", "assumption false"))
@@ -436,6 +497,7 @@ func (e *Exec) Assume(c *Term) {
 
 // Assert is a proof obligation: pc ⇒ c.
 func (e *Exec) Assert(c *Term, msg string) {
+	c = e.norm(c)
 	if c.IsConst() {
 		if c.c != 0 {
 			e.assertsFold++
@@ -456,6 +518,9 @@ func (e *Exec) Assert(c *Term, msg string) {
 	switch r {
 	case Unsat:
 		e.asserts++
+		if slowLog {
+			fmt.Fprintf(os.Stderr, "ASSERTQ %q %s\n", msg, nc.String())
+		}
 		return
 	case Sat:
 		e.fail("assert", msg, m)
